@@ -67,6 +67,24 @@ def rule_a_json(R, ctx):
                     if var in ("Relative", "Nested", "Root"):
                         local_var.setdefault(init["local"], var)
                         break
+    # precedence of the scope keys: a position inside a root-level type arrives from Yjs with BOTH `tname` and `item`; the element
+    # anchor wins (as in Yjs), then the root name, then the nested type id
+    chain = []
+    for n in hir_walk(de.hir["body"]):
+        if n.get("k") == "if" and n["cond"].get("k") == "letx":
+            init = n["cond"]["init"]
+            if init.get("k") == "path" and "local" in init and init["local"] in local_var:
+                depth = 0
+                cur = n
+                # how many scope tests sit in the else-chain below this one
+                below = [m for m in hir_walk(n.get("else") or {}) if m.get("k") == "if" and m["cond"].get("k") == "letx"
+                         and m["cond"]["init"].get("k") == "path" and m["cond"]["init"].get("local") in local_var]
+                chain.append((len(below), local_var[init["local"]]))
+    order = [v for _, v in sorted(chain, key=lambda x: -x[0])]
+    R.ob("C14.a", de, "scope-precedence", order == ["Relative", "Root", "Nested"],
+         "scope keys are tried in the order item, tname, type: %s" % order if order == ["Relative", "Root", "Nested"] else
+         "scope keys are tried in the order %s — expected Relative (item) before Root (tname) before Nested (type): a position from Yjs "
+         "inside a root-level type carries tname AND item, and loses its element anchor" % order)
     rtab = {k: local_var.get(l) for k, l in key_local.items()}
     R.ob("C14.a", de, "reader-table", len([v for v in rtab.values() if v]) >= 3, "Deserialize: %s" % rtab)
     agree = all(rtab.get(key) == var for var, key in wtab.items())
